@@ -57,6 +57,13 @@ Unit-specific hooks (attributes of pygal.Ext, on top of the ones pygal.py docume
   fact_test(fn, g, t, env, kt, kf)   the truthiness test of a Boolean carrying a `fact` (see pygal.tr_test)
   except_classes           {python class name: Gallina predicate on exceptions}   (default: only `Exception`)
   exc_new(fn, node, env)   -> None | Gallina text of a freshly constructed exception (node = the operand of `raise`)
+  [srclabels] stmt_m(fn, stmt, env, cont) -> text | None   a statement only the unit can read (item assignment
+                              `obj.attr[k] = v`, ...); cont(env') is the translation of what follows
+  [srclabels] mutates_target(stmt)  -> set of local names whose object an assignment to a subscript / attribute mutates
+  [srclabels] `for a, b in <list of pairs>` (element Ty of kind "pair" with .fst / .snd): tr_for_pair
+  [srclabels] spec key "state_var": the function is translated for the final content of that local (a mutated object);
+                              a bare `return` is `return_v <its current content>` (the caller supplies the same at the
+                              fall-through end and lists the name as live)
 Function spec keys on top of pygal's: "ret" (Ty: the function returns a value), "vararg" / "kwarg" ((name, Ty): the
 function has *name / **name, handed to the Gallina function as ordinary parameters of that opaque type; only the
 unit's primitives can look at them), "gparams" (text of extra implicit binders, e.g. "{pval : Type}").
@@ -94,6 +101,9 @@ def assigned(fn, stmts):
             out |= {t.id for t in s.targets if isinstance(t, ast.Name)}
             if getattr(fn.ext, "setattr_", None) is not None:      # [srcgate] `x.attr = v` re-binds x to the object's new content
                 out |= {t.value.id for t in s.targets if isinstance(t, ast.Attribute) and isinstance(t.value, ast.Name)}
+            # [srclabels] `obj.attr[k] = v` / `obj.attr = v`: the unit says which local's object is mutated
+            if getattr(fn.ext, "mutates_target", None) is not None and any(not isinstance(t, ast.Name) for t in s.targets):
+                out |= set(fn.ext.mutates_target(s))
         elif isinstance(s, (ast.AugAssign, ast.AnnAssign)):
             if isinstance(s.target, ast.Name):
                 out.add(s.target.id)
@@ -275,6 +285,10 @@ def tr_block(fn, stmts, env, k, live):
             return "return_v %s" % g
         if s.value is not None and not (isinstance(s.value, ast.Constant) and s.value.value is None):
             _bad("return of a value (the function is translated for its effects)", s)
+        # [srclabels] a method translated for the final content of an object it mutates (spec "state_var": the local
+        # that holds it): `return` hands the object's current content out
+        if fn.spec.get("state_var") is not None:
+            return "return_v %s" % env[fn.spec["state_var"]][0]
         return "return_"
     if isinstance(s, ast.Raise):
         if rest:
@@ -299,6 +313,12 @@ def tr_block(fn, stmts, env, k, live):
         return tr_try(fn, s, env, cont, live_rest)
     if isinstance(s, ast.For):
         return tr_for(fn, s, env, cont, live_rest)
+    # [srclabels] unit-specific statements (Ext.stmt_m(fn, stmt, env, cont) -> text | None), e.g. an item assignment
+    # `obj.attr[k] = <call>`: the hook emits the statement and calls cont with the environment after it
+    if getattr(fn.ext, "stmt_m", None) is not None:
+        r = fn.ext.stmt_m(fn, s, env, cont)
+        if r is not None:
+            return r
     if isinstance(s, (ast.Assign, ast.AnnAssign, ast.AugAssign, ast.Expr)):
         return tr_simple(fn, s, env, cont)
     _bad("statement %s" % type(s).__name__, s)
@@ -442,6 +462,12 @@ def tr_try(fn, s, env, cont, live_rest):
 def tr_for(fn, s, env, cont, live_rest):
     if s.orelse:
         _bad("for ... else", s)
+    # [srclabels] `for a, b in <list of pairs>` (element Ty of kind "pair" with attributes fst, snd): see tr_for_pair;
+    # any other tuple target is [srcloop]'s (below)
+    if isinstance(s.target, ast.Tuple):
+        _lg0, _lt0 = pure(fn, s.iter, env)
+        if _lt0.kind == "list" and getattr(getattr(_lt0, "arg", None), "kind", None) == "pair":
+            return tr_for_pair(fn, s, env, cont, live_rest)
     lg, lt = pure(fn, s.iter, env)
     if lt.kind != "list":
         _bad("loop over %r" % lt, s)
@@ -502,6 +528,45 @@ def own_continues(stmts):
     for st in stmts:
         walk(st)
     return out
+
+
+def tr_for_pair(fn, s, env, cont, live_rest):
+    """[srclabels] for a, b in <list of pairs>: B   ->   state <~ for_ l (fun '(a, b) state => B; next state) state0
+    (tr_for with a two-name tuple target; the element type is a Ty of kind "pair" carrying .fst / .snd)"""
+    tg = s.target
+    if len(tg.elts) != 2 or not all(isinstance(e, ast.Name) for e in tg.elts) or tg.elts[0].id == tg.elts[1].id:
+        _bad("loop target that is not a pair of two local variables", s)
+    lg, lt = pure(fn, s.iter, env)
+    if lt.kind != "list" or lt.arg.kind != "pair":
+        _bad("loop with a pair target over %r" % lt, s)
+    xs = [e.id for e in tg.elts]
+    for x in xs:
+        if x in live_rest - names_used(s.body):
+            _bad("the loop variable is read after the loop", s)
+    asg = assigned(fn, s.body) - set(xs)
+    for v in sorted(asg):
+        if v not in env and v in live_rest:
+            _bad("variable %s is first bound inside the loop and read after it" % v, s)
+    state = sorted(v for v in asg if v in env)
+    if set(xs) & assigned(fn, s.body):
+        _bad("a loop variable is re-bound inside the loop", s)
+    xvs = [fn.fresh(x) for x in xs]
+    benv, svs = rebind(rebind(env, xs[0], xvs[0], lt.arg.fst), xs[1], xvs[1], lt.arg.snd), []
+    for v in state:
+        sv = fn.fresh(v)
+        benv = rebind(benv, v, sv, env[v][1])
+        svs.append(sv)
+    box = []
+    # live at the end of the body: what follows the loop, and what the next iteration may read - only names bound before
+    # the loop can be carried over (a name first bound inside the body is unknown at the start of the next iteration:
+    # reading it there is a translation error), so a local of the body is not live at its end
+    carried = {v for v in names_used(s.body) if v in env}
+    b_text = tr_block(fn, s.body, benv, next_of(state, box, s), carried | live_rest)
+    init = [env[v][1] for v in state]
+    out_types(state, box, s, want=init)
+    pat = "_" if not svs else svs[0] if len(svs) == 1 else "'(%s)" % ", ".join(svs)
+    text = "for_ %s (fun '(%s, %s) %s =>\n%s)\n%s" % (lg, xvs[0], xvs[1], pat, b_text, tup([env[v][0] for v in state]))
+    return bind_outs(fn, text, state, init, env, cont)
 
 
 def indent(text):
